@@ -1,0 +1,90 @@
+//! Verification hooks, compiled only with `--cfg maybenot_verif`. Observation
+//! only: a thread-local log of what the framework did internally during a call
+//! to `trigger_events`, drained by an external test harness. Nothing in here
+//! changes the behaviour of the framework.
+
+use crate::event::Event;
+use std::cell::{Cell, RefCell};
+
+/// One record of the internal log.
+#[derive(Debug, Clone, PartialEq, Eq)]
+pub enum Rec {
+    /// `event` was delivered to live machine `mi` (one machine step).
+    Deliver { mi: usize, event: Event },
+    /// machine `mi` transitioned to the signal pseudo-state.
+    Signalled { mi: usize },
+    /// machine `mi` transitioned to the end pseudo-state.
+    Ended { mi: usize },
+    /// machine `mi` entered `state` from another state, sampling `limit`.
+    Entered { mi: usize, state: usize, limit: u64 },
+    /// an action (or None) of `state` was put into the slot of machine `mi`.
+    Scheduled { mi: usize, state: usize, some: bool },
+    /// the limit of machine `mi` was decremented to `limit`.
+    LimitDec { mi: usize, limit: u64 },
+    /// the pending action of machine `mi` was withdrawn on a reached limit.
+    Withdrawn { mi: usize },
+    /// the counters of machine `mi` were updated.
+    Counters {
+        mi: usize,
+        old: (u64, u64),
+        new: (u64, u64),
+    },
+    /// the signal round at the end of the call begins.
+    SignalRoundStart,
+}
+
+/// Snapshot of the property-level state of one machine.
+#[derive(Debug, Clone, PartialEq, Eq)]
+pub struct MachineSnapshot {
+    pub current_state: usize,
+    pub state_limit: u64,
+    pub counter_a: u64,
+    pub counter_b: u64,
+    pub padding_sent: u64,
+    pub normal_sent: u64,
+}
+
+/// Snapshot of the framework.
+#[derive(Debug, Clone, PartialEq, Eq)]
+pub struct Snapshot {
+    pub machines: Vec<MachineSnapshot>,
+    pub blocking_active: bool,
+    pub signal_pending: bool,
+}
+
+thread_local! {
+    static ENABLED: Cell<bool> = const { Cell::new(false) };
+    static LOG: RefCell<Vec<Rec>> = const { RefCell::new(Vec::new()) };
+}
+
+/// Turn logging on or off for the current thread (off by default).
+pub fn enable(on: bool) {
+    ENABLED.with(|e| e.set(on));
+    LOG.with(|l| l.borrow_mut().clear());
+}
+
+/// Take the records logged so far on the current thread.
+pub fn drain() -> Vec<Rec> {
+    LOG.with(|l| std::mem::take(&mut *l.borrow_mut()))
+}
+
+/// Clear the log, keeping its allocation.
+pub fn clear() {
+    LOG.with(|l| l.borrow_mut().clear());
+}
+
+/// Run `f` over the records logged so far, then clear the log.
+pub fn with_log<T>(f: impl FnOnce(&[Rec]) -> T) -> T {
+    LOG.with(|l| {
+        let mut l = l.borrow_mut();
+        let r = f(&l);
+        l.clear();
+        r
+    })
+}
+
+pub(crate) fn log(r: Rec) {
+    if ENABLED.with(|e| e.get()) {
+        LOG.with(|l| l.borrow_mut().push(r));
+    }
+}
